@@ -77,6 +77,10 @@ def base_env():
         I.ghost['done'] = I.ghost.get('done', ()) + (job,)
         return None
 
+    @env.model('DoneDeque', '__contains__', trusted='deque membership')
+    def d_contains(I, self, job):
+        return SBool(I.fresh_term('equal_job_in_tasks_done', smt.BOOL))
+
     # attribute-style access to queue.queue is a read of the shared state
     env.attr_models[('TaskQueue', 'queue')] = env.methods.pop(('TaskQueue', 'queue'))
 
@@ -105,6 +109,8 @@ def put_setup(I, args):
     I.ghost['appended'] = 0
     I.ghost['reads'] = 0
     I.ghost['job'] = args['job']
+    # what put_job must NOT base its decision on: the running job and the finished ones
+    I.set_attr(args['self'], 'status', I.alloc_dict({'current job': I.fresh('current_job', 'QJob')}))
 
 
 def equal_job_in(seq, job):
@@ -205,6 +211,40 @@ def extra(rep, tier, seed, budget):
         path = write_replay(rep.pid, 'bounded:process_task', res)
         rep.violations.append({'key': 'bounded:process_task', 'what': 'process_task outcome', 'replay': path,
                                'input': res['failures'][0], 'noinput': False})
+
+
+def bounded_for(c, tier, seed):
+    """put_job on the real BertE: an equal job running or finished must not suppress the new one."""
+    if 'put_job' not in c.label:
+        return None
+    import itertools
+    from collections import deque
+    from queue import Queue
+    from types import SimpleNamespace
+    from bert_e.bert_e import BertE
+    from bert_e.job import PullRequestJob
+    be = SimpleNamespace(settings={}, project_repo=SimpleNamespace(full_name='o/r'), git_repo=None)
+
+    def mk(i):
+        return PullRequestJob(bert_e=be, pull_request=SimpleNamespace(id=i))
+    for pend, cur, done in itertools.product([(), (1,), (2,), (2, 1)], [None, 1, 2], [(), (1,), (2,)]):
+        b = BertE.__new__(BertE)
+        b.task_queue, b.tasks_done, b.status = Queue(), deque(maxlen=1000), {}
+        for i in pend:
+            b.task_queue.put(mk(i))
+        if cur is not None:
+            b.status['current job'] = mk(cur)
+        for i in done:
+            b.tasks_done.appendleft(mk(i))
+        before = len(b.task_queue.queue)
+        b.put_job(mk(1))
+        appended = len(b.task_queue.queue) == before + 1
+        if appended != (1 not in pend):
+            return {'ok': False, 'input': {'pending_pr_ids': list(pend), 'running_pr_id': cur,
+                                           'finished_pr_ids': list(done), 'new_job_pr_id': 1},
+                    'expected': 'appended' if 1 not in pend else 'dropped',
+                    'got': 'appended' if appended else 'dropped'}
+    return None
 
 
 def native_worker_check():
